@@ -210,6 +210,10 @@ def c20_shared(R):
                 continue
             if isinstance(val, ast.Call) and (dotted(val.func) or "") in MUTABLE_CTORS:
                 cands[tg] = st
+            elif isinstance(val, ast.Call) and any(
+                (dotted(x) or "").startswith("ctypes.") for x in ast.walk(val.func) if isinstance(x, ast.Attribute)
+            ):
+                cands[tg] = st  # a ctypes cell / buffer / pointer: foreign code writes through it
             elif isinstance(val, (ast.Dict, ast.List, ast.Set)) and not getattr(val, "keys", getattr(val, "elts", [])):
                 cands[tg] = st
         for q, c in m.classes.items():
@@ -301,3 +305,44 @@ def c20_solver(R):
     cl = tree.func(Z3, "BackendZ3.clone_solver")
     R.check("s.translate(self._context)" in ast.unparse(cl), mz, cl, "clone_solver translates into this thread's context",
             "clone_solver no longer translates into self._context", construct="BackendZ3.clone_solver")
+
+
+@rule(
+    "C20.fresh",
+    props=("C20",),
+    floor=4,
+    family="WHO",
+    desc="what a backend stores in its per-thread storage (self._tls.x = ...) is created in that statement: it does "
+    "not alias a module- or class-level object (a per-thread slot that points at one shared cell is shared state)",
+)
+def c20_fresh(R):
+    tree = R.tree
+    n = 0
+    for m in tree.modules.values():
+        if not m.path.startswith("claripy/backends/"):
+            continue
+        shared_objs = {}
+        for st in m.tree.body:
+            if isinstance(st, ast.Assign) and len(st.targets) == 1 and isinstance(st.targets[0], ast.Name) and isinstance(st.value, (ast.Call, ast.Dict, ast.List, ast.Set)):
+                shared_objs[st.targets[0].id] = st
+        for q, fn in m.functions.items():
+            for st in walk_no_nested(fn):
+                if not isinstance(st, ast.Assign):
+                    continue
+                for t in st.targets:
+                    if isinstance(t, ast.Attribute) and isinstance(t.value, ast.Attribute) and t.value.attr == "_tls":
+                        n += 1
+                        used = sorted({x.id for x in ast.walk(st.value) if isinstance(x, ast.Name) and x.id in shared_objs})
+                        cls_attrs = sorted(
+                            {ast.unparse(x) for x in ast.walk(st.value) if isinstance(x, ast.Attribute) and isinstance(x.value, ast.Name) and x.value.id in ("cls", "type") }
+                        )
+                        R.check(
+                            not used and not cls_attrs,
+                            m,
+                            st,
+                            f"{q}: per-thread slot {t.attr} holds an object created for this thread",
+                            f"{q} fills the per-thread slot `{t.attr}` from the process-wide object(s) {used + cls_attrs} "
+                            f"(`{norm(st)}`): every thread's slot refers to the same object, so values written by one "
+                            f"thread's Z3 call are read by another",
+                        )
+    R.need(n >= 4, f"only {n} per-thread slot initialisations found")
